@@ -21,6 +21,7 @@
 -/
 import LccModel.Proto
 import LccModel.Model.Threads
+import LccModel.Model.ThreadsCtx
 import LccModel.Model.FixtureDecl
 open Lean LccModel LccModel.Proto LccModel.Threads.Factory
 
@@ -131,6 +132,27 @@ def replay (nT nO : Nat) (snap : Option (List Nat)) (implicitTd : Bool) (labels 
 
 def natArr (l : List Nat) : Json := Json.arr (l.map (fun (n : Nat) => Json.num n)).toArray
 
+/-- `"ctx": [["get", t, c] | ["copy", c, c'], …]` — the get-level history with contexts on M14d with the slot keyed by the OS
+    thread (the code as it is): who is handed which object -/
+def handleCtx (nT : Nat) (j : Json) : Except String Json := do
+  let evs ← (← j.getArr?).toList.mapM (fun x => do
+    let a ← x.getArr?
+    match ← a[0]!.getStr? with
+    | "get" => pure (Threads.Ctx.Ev.get (← a[1]!.getNat?) (← a[2]!.getNat?))
+    | "copy" => pure (Threads.Ctx.Ev.copy (← a[1]!.getNat?) (← a[2]!.getNat?))
+    | k => throw s!"unknown ctx event {k}")
+  -- re-tabulate after every event (function-valued state, see harness/README.md)
+  let stepN := fun (s : Threads.Ctx.St) (e : Threads.Ctx.Ev) =>
+    let s' := Threads.Ctx.step .thread s e
+    let aSlot := ((List.range nT).map s'.slot).toArray
+    let aCre := ((List.range nT).map s'.creations).toArray
+    { s' with slot := fun i => aSlot.getD i none, creations := fun i => aCre.getD i 0, creator := fun _ => none }
+  let s := evs.foldl stepN Threads.Ctx.init
+  pure (Json.mkObj [
+    ("returned", Json.arr (s.returned.map (fun p => Json.arr #[Json.num p.1, Json.num p.2])).toArray),
+    ("creations", Json.arr ((List.range nT).map (fun t => Json.num (s.creations t))).toArray),
+    ("next", Json.num s.next)])
+
 def handleOne (j : Json) : Except String Json := do
   let nT ← getNat j "threads"
   let nO ← getNat j "nobj"
@@ -141,7 +163,10 @@ def handleOne (j : Json) : Except String Json := do
   let labels ← getArr j "trace"
   let out ← replay nT nO snap implicitTd labels.toList
   let s := out.state
-  pure (Json.mkObj [
+  let ctx ← (match j.getObjVal? "ctx" with
+    | .ok cj => do let r ← handleCtx nT cj; pure [("ctx", r)]
+    | .error _ => pure [])
+  pure (Json.mkObj (ctx ++ [
     ("accepted", Json.num out.accepted),
     ("reject", match out.reject with | none => Json.null | some r => Json.str r),
     ("objects", natArr s.objects),
@@ -153,7 +178,7 @@ def handleOne (j : Json) : Except String Json := do
     ("td_begins", Json.num s.tdBegins), ("td_ends", Json.num s.tdEnds), ("td_raises", Json.num s.tdRaises),
     ("td_obj_raises", Json.num s.tdObjRaises),
     ("td_outcomes", Json.arr (s.tdOutcomes.map optNat).toArray),
-    ("quiescent", Json.bool ((List.range nT).all (fun t => s.pc t == .idle)))])
+    ("quiescent", Json.bool ((List.range nT).all (fun t => s.pc t == .idle)))]))
 
 /-! ### validation of the declared fixtures (`PreparedProject._build_fixture_registry` + `check_dependencies`) -/
 
